@@ -323,13 +323,13 @@ class Ref:
             return [(p, 'normal', None)]
         if k == 'expr':
             v, ty = self.ev(s[1], p, sc)
-            p.cv = (v, L.conc(ty), s[1])
+            p.cv = (v, L.conc(ty), s[1], L.typeof(s[1], env, sc))
             return [(p, 'normal', None)]
         if k == 'return':
             if s[1] is None:
                 return [(p, 'return', None)]
             v, ty = self.ev(s[1], p, sc)
-            return [(p, 'return', (v, L.conc(ty), s[1]))]
+            return [(p, 'return', (v, L.conc(ty), s[1], L.typeof(s[1], env, sc)))]
         if k == 'break':
             return [(p, 'break', None)]
         if k == 'block':
